@@ -191,8 +191,10 @@ class Packet(_with_metaclass(bisturi.packet_builder.MetaPacket, object)):
         if not isinstance(other, self.__class__):
             return False
 
+        # Pseudo fields (the Move of at/shift/aligned, Em) never hold a
+        # value: their slot is unset or does not exist; read them as None.
         for name, f, pack, _ in self.get_fields():
-            if getattr(self, name) != getattr(other, name):
+            if getattr(self, name, None) != getattr(other, name, None):
                 return False
 
         return True
@@ -208,7 +210,7 @@ class Packet(_with_metaclass(bisturi.packet_builder.MetaPacket, object)):
     def __repr__(self):
         msg = [f'{self.__class__.__name__}:']
         for name, f, _, _ in self.get_fields():
-            msg.append(f'  {name}: {getattr(self, name)}')
+            msg.append(f'  {name}: {getattr(self, name, None)}')
 
         return '\n'.join(msg)
 
